@@ -1,12 +1,14 @@
 package c07
 
 import (
+	"bytes"
 	"fmt"
 	"io"
 	"reflect"
 	"sort"
 	"strconv"
 	"strings"
+	"verif/internal/vf"
 )
 
 // IfaceCase passes a value of an interpreted type to a host function whose
@@ -93,11 +95,20 @@ func (h *hostIface) exports(m map[string]reflect.Value) {
 	})
 	m["Write"] = reflect.ValueOf(func(w io.Writer, s string) (int, error) { return w.Write([]byte(s)) })
 	m["Sort"] = reflect.ValueOf(func(s sort.Interface) int { sort.Sort(s); return s.Len() })
+	m["CopyTo"] = reflect.ValueOf(func(w io.Writer, s string) int64 { n, _ := io.Copy(w, strings.NewReader(s)); return n })
+	m["CopyFrom"] = reflect.ValueOf(func(r io.Reader) string {
+		var b bytes.Buffer
+		_, _ = io.Copy(&b, r)
+		return b.String()
+	})
 }
 
 func (g *gen) genIface() *Case {
 	x := &IfaceCase{}
-	x.Kind = rapid_sample(g, []string{"stringer", "stringer", "error", "error", "reader", "reader", "writer", "writer", "sort", "sort"}, "ifacekind")
+	x.Kind = rapid_sample(g, []string{"stringer", "stringer", "error", "error", "reader", "reader", "writer", "writer", "sort", "sort", "copy-to", "copy-from"}, "ifacekind")
+	if x.Kind == "copy-to" && vf.IsKnown("C07", "copy-to-embedded-buffer-uses-script-write") {
+		x.Kind = "copy-from"
+	}
 	x.Tag = rapid_sample(g, []string{"", "a", "héllo", "tag with space", "x\ny"}, "tag")
 	x.N = g.intn(-5, 120, "n")
 	switch x.Kind {
@@ -115,6 +126,14 @@ func (g *gen) genIface() *Case {
 		x.Pass = rapid_sample(g, []string{"direct", "var"}, "pass")
 	case "writer":
 		x.Under = "struct"
+		x.Ptr = true
+		x.Data = rapid_sample(g, stringVals, "data")
+		x.Pass = rapid_sample(g, []string{"direct", "var"}, "pass")
+	case "copy-to", "copy-from":
+		// a struct which embeds a host type (*bytes.Buffer, *strings.Reader) and
+		// overrides its Write / Read: io.Copy in the host must use the optional
+		// method promoted from the embedded host type (ReadFrom / WriteTo)
+		x.Under = "embed-host"
 		x.Ptr = true
 		x.Data = rapid_sample(g, stringVals, "data")
 		x.Pass = rapid_sample(g, []string{"direct", "var"}, "pass")
@@ -147,7 +166,7 @@ func (x *IfaceCase) text() string {
 func (c *Case) runIface() *failure {
 	x := c.I
 	var src strings.Builder
-	src.WriteString("package main\n\nimport (\n\t\"fmt\"\n\t\"host\"\n\t\"io\"\n\t\"sort\"\n\t\"strconv\"\n)\n\nvar _ = fmt.Sprint\nvar _ = io.EOF\nvar _ = sort.Ints\nvar _ = strconv.Itoa\nvar _ host.T0\n\n")
+	src.WriteString("package main\n\nimport (\n\t\"bytes\"\n\t\"fmt\"\n\t\"host\"\n\t\"io\"\n\t\"sort\"\n\t\"strconv\"\n\t\"strings\"\n)\n\nvar _ = fmt.Sprint\nvar _ = io.EOF\nvar _ = sort.Ints\nvar _ = strconv.Itoa\nvar _ host.T0\nvar _ bytes.Buffer\nvar _ = strings.ToUpper\n\n")
 	recv := "v V"
 	if x.Ptr {
 		recv = "v *V"
@@ -197,6 +216,14 @@ func (c *Case) runIface() *failure {
 		src.WriteString("type V struct {\n\tbuf []byte\n}\n\n")
 		src.WriteString("func (v *V) Write(p []byte) (int, error) {\n\tv.buf = append(v.buf, p...)\n\treturn len(p), nil\n}\n")
 		newV = "V{}"
+	case "copy-to":
+		src.WriteString("type V struct {\n\t*bytes.Buffer\n\twrites int\n}\n\n")
+		src.WriteString("func (v *V) Write(p []byte) (int, error) {\n\tv.writes++\n\treturn v.Buffer.Write(p)\n}\n")
+		newV = "V{Buffer: &bytes.Buffer{}}"
+	case "copy-from":
+		src.WriteString("type V struct {\n\t*strings.Reader\n\treads int\n}\n\n")
+		src.WriteString("func (v *V) Read(p []byte) (int, error) {\n\tv.reads++\n\tn, err := v.Reader.Read(p)\n\tfor i := 0; i < n; i++ {\n\t\tp[i] = '#'\n\t}\n\treturn n, err\n}\n")
+		newV = fmt.Sprintf("V{Reader: strings.NewReader(%s)}", strconv.Quote(x.Data))
 	case "sort":
 		less := "<"
 		if x.Desc {
@@ -262,6 +289,18 @@ func (c *Case) runIface() *failure {
 			arg = "w"
 		}
 		fmt.Fprintf(&src, "func Run() {\n\tx := %s\n%s\tn, err := host.Write(%s, %s)\n\tOutN = n\n\tif err != nil {\n\t\tOutErr = err.Error()\n\t}\n\tOut = string(x.buf)\n}\n", newV, pre, arg, strconv.Quote(x.Data))
+	case "copy-to":
+		arg, pre := "&x", ""
+		if x.Pass == "var" {
+			pre, arg = "\tvar w io.Writer = &x\n", "w"
+		}
+		fmt.Fprintf(&src, "func Run() {\n\tx := %s\n%s\tOutN = int(host.CopyTo(%s, %s))\n\tOut = x.Buffer.String()\n\tReads = x.writes\n}\n", newV, pre, arg, strconv.Quote(x.Data))
+	case "copy-from":
+		arg, pre := "&x", ""
+		if x.Pass == "var" {
+			pre, arg = "\tvar r io.Reader = &x\n", "r"
+		}
+		fmt.Fprintf(&src, "func Run() {\n\tx := %s\n%s\tOut = host.CopyFrom(%s)\n\tReads = x.reads\n}\n", newV, pre, arg)
 	case "sort":
 		arg := val
 		pre := ""
@@ -414,6 +453,19 @@ func (c *Case) runIface() *failure {
 			}
 			if n != len(x.Data) {
 				return failf("iface-method", nil, "host got n=%d from the script Write, want %d", n, len(x.Data))
+			}
+		case "copy-to", "copy-from":
+			// compiled Go: *V has ReadFrom (WriteTo) promoted from the embedded
+			// host type, io.Copy uses it and never calls the overriding Write (Read)
+			if out != x.Data {
+				return failf("iface-method", nil, "%s through io.Copy in the host: got %q, want %q (the optional method promoted from the embedded host type moves the data unchanged)", x.Kind, out, x.Data)
+			}
+			n, fl := num("Reads")
+			if fl != nil {
+				return fl
+			}
+			if n != 0 {
+				return failf("iface-method", nil, "%s: the overriding method of the script type ran %d times; io.Copy must use the ReadFrom/WriteTo promoted from the embedded host type", x.Kind, n)
 			}
 		case "sort":
 			n, fl := num("OutN")
